@@ -128,7 +128,7 @@ func (x *Exec) call(st *State, e *ast.CallExpr, k func(*State, []Term)) {
 func (x *Exec) args(st *State, e *ast.CallExpr, sig *types.Signature, k func(*State, []Term)) {
 	x.exprList(st, e.Args, func(st *State, vs []Term) {
 		np := sig.Params().Len()
-		if len(vs) == 1 && np > 1 {
+		if len(vs) == 1 && np > 1 && !sig.Variadic() {
 			x.undecide("multi-value argument at %s", x.prog.pos(e))
 			return
 		}
@@ -288,6 +288,8 @@ func (x *Exec) appendSlice(st *State, a, b Term, es string, rt types.Type, k fun
 	res := fmt.Sprintf("(%s %s (s_off %s) (s_len %s) %s (s_off %s))", cat, arrA, a.S, a.S, arrB, b.S)
 	x.writeField(st, key, asort, nb.S, res)
 	r := Term{S: fmt.Sprintf("(mkSlice %s 0 (+ (s_len %s) (s_len %s)) (+ (s_len %s) (s_len %s)))", nb.S, a.S, b.S, a.S, b.S), Sort: "Slice", T: rt}
+	st.pc = append(st.pc, fmt.Sprintf("(forall ((q!b Int)) (=> (and (<= 0 q!b) (< q!b (s_len %s))) (= (select %s q!b) (select %s (+ (s_off %s) q!b)))))", a.S, res, arrA, a.S))
+	st.pc = append(st.pc, fmt.Sprintf("(forall ((q!b Int)) (=> (and (<= 0 q!b) (< q!b (s_len %s))) (= (select %s (+ (s_len %s) q!b)) (select %s (+ (s_off %s) q!b)))))", b.S, res, a.S, arrB, b.S))
 	// ground facts for the first element of each part (what the units in scope read)
 	st.assume(sImp(fmt.Sprintf("(> (s_len %s) 0)", a.S), sEq(fmt.Sprintf("(select %s 0)", res), fmt.Sprintf("(select %s (s_off %s))", arrA, a.S))))
 	st.assume(sImp(fmt.Sprintf("(> (s_len %s) 0)", b.S), sEq(fmt.Sprintf("(select %s (s_len %s))", res, a.S), fmt.Sprintf("(select %s (s_off %s))", arrB, b.S))))
@@ -777,6 +779,11 @@ func (x *Exec) funValueCall(st *State, e *ast.CallExpr, f Term, ft types.Type, s
 	if target != nil {
 		if spec := x.effectiveSpec(target); spec != nil {
 			x.contractCall(st, e, spec, sig, target.Name, nil, args, &f, k)
+			return
+		}
+		if st.closures[f.S] == target && st.depth < 4 {
+			// a closure created on this path and without a contract: run its body
+			x.inlineCall(st, target, nil, args, k)
 			return
 		}
 	}
